@@ -93,6 +93,11 @@ func describeReply(f []byte) string {
 func runFraming(c *sim.Ctx) {
 	s := newPeerSimOpts(c, 2+c.T.Int("framing-blocks", 4), func(ns *netSim) {
 		ns.knobs.maxIncomingMsgLen = []int{4096, 65536, 1024 * 1024}[c.T.Pick("knob-max-in-len", 2, 2, 1)]
+		if c.T.Chance("small-event-queue", 1, 3) {
+			// a node whose run loop is behind: the queue between the connection goroutines and the run loop holds only a
+			// few events, so a burst fills it and the sender has to wait (no message may be lost for that)
+			ns.knobs.eventQueue = 1 + c.T.Int("event-queue", 8)
+		}
 	})
 	defer s.close()
 	t := c.T
@@ -130,6 +135,11 @@ func runFraming(c *sim.Ctx) {
 			bounds = append(bounds, len(stream))
 		}
 		bad, badStream, badWhy := s.drawBadTail()
+		if s.ns.knobs.eventQueue > 0 {
+			// runs with a short event queue deliver from a goroutine of their own; they stick to well-formed streams
+			// (the bookkeeping of disconnect reasons below assumes the harness's own goroutine)
+			bad, badStream, badWhy = "", nil, ""
+		}
 		full := append(append([]byte{}, stream...), badStream...)
 		if bad != "" && bad != "eof-mid-frame" {
 			// something well-formed after the bad frame: it must never be processed
@@ -156,7 +166,12 @@ func runFraming(c *sim.Ctx) {
 		}
 		c.Count("fault.chunked_stream")
 		c.CountN("probe.chunks", int64(len(cuts)+1))
-		s.ns.deliver(p.l, full, cuts)
+		if s.ns.knobs.eventQueue > 0 && bad == "" {
+			// (well-formed streams only: the bookkeeping of disconnect reasons below assumes the harness's own goroutine)
+			s.ns.deliverUnderBackPressure(p.l, full, cuts)
+		} else {
+			s.ns.deliver(p.l, full, cuts)
+		}
 		s.ns.pump()
 		var got []string
 		for _, f := range p.received[base:] {
